@@ -8,7 +8,8 @@ from . import C01_lib as lib
 
 SUPPORT = ["Dec/Ty.v", "Dec/Val.v", "Dec/Parse.v", "Dec/Text.v", "Dec/Num.v", "Dec/Common.v", "Dec/FieldMap.v",
            "Dec/Range.v", "Dec/Trailing.v", "Dec/StdBind.v", "Dec/SonicBind.v", "Dec/Compile.v", "Dec/FieldMapProofs.v",
-           "Dec/FieldLookup.v", "Dec/DecProofs.v", "Dec/Witness.v"]
+           "Dec/FieldLookup.v", "Dec/DecProofs.v", "Dec/Witness.v", "Dec/ParseMono.v", "Dec/OptProofs.v", "Dec/DecProofs2.v",
+           "Dec/Witness2.v", "Dec/Exec.v", "Dec/ExecProofs.v", "Dec/ExecWitness.v"]
 
 CLAIM = {
     "gens": [],
@@ -19,9 +20,9 @@ CLAIM = {
              "exactly the stored id for every hash function; exact-then-ToLower equals encoding/json's exact-then-fold on ASCII names "
              "(refuted beyond ASCII by a witness); the assembler's range checks accept exactly the representable integers at every width "
              "(the uint32 map-key variant was repaired by fix afd5482); CheckTrailings accepts exactly whitespace; and sonic_bind agrees with std_bind "
-             "on error-or-not and on the value for the proved fragment, with each known divergence as an explicit guard plus a refutation "
+             "on error-or-not and on the value for the proved fragment (maps and `,string` fields under the no-collision discipline), with each known divergence as an explicit guard plus a refutation "
              "witness. Both models are tied to the real sonic and the real encoding/json on generated (type, initial value, input, config) "
-             "cases; the compiler's IL listing is tied to the model's compile for every generated type; FieldMap and ResolveStruct are "
+             "cases; the compiler's IL listing is tied to the model's compile for every generated type, and an interpreter of that IL (exec) is tied to the real decoder on the same cases; FieldMap and ResolveStruct are "
              "driven directly. The property's own oracle (sonic vs encoding/json, all generated and catalogue types) runs on every case."),
     "note": ("Trusted: Coq kernel, extraction, the OCaml driver, the Go harness, reflect-built types. The models are hand transcriptions of "
              "jitdec/compiler.go + assembler semantics and of encoding/json/decode.go, tied by differential runs, not generated from source. "
